@@ -425,6 +425,8 @@ func (ex *explorer) runPath(in *interpreter, sym *symCtx, prefix []event) (outco
 				outcome = "nil panic"
 			}
 		}
+		in.teardownSched()
+		delete(in.natState, "chanq")
 	}()
 	callSSA(in, nil, 0, ex.fn, ex.args, nil)
 	return nil
